@@ -3,7 +3,7 @@
 Every case builds a real field, writes it with Field.to_file into a fresh temporary directory
 (never inside /verif or /repo), inspects the written file through h5py directly AND through
 Field.from_file, and hands (a) the field's typed state, (b) the h5py view of the file to the
-Lean model (`save`, `load`, `spec`, `inv`, `series` ops).  Geometry is dyadic and values travel as
+Lean model (`save`, `load`, `spec`, `inv`, `series`, `rawload`, `rawsave`, `exact`, `fs`, `invw`, `mkmesh` ops).  Geometry is dyadic and values travel as
 binary64 bit patterns (exact rationals, tokens for -0 / inf / NaN payloads): every comparison is exact.
 """
 import json
@@ -44,7 +44,26 @@ RULE = ("(a) round trip: fields on 1-4-d meshes, all four int/float combinations
         "data_shape (T, *n, nvdim), a history of 0-6 _h5_save_data(dataset, t) calls (t in and out of [-T, T), rewrites, "
         "other dtypes: int<->float converted, real<->complex refused, wrong shapes), h5py view of the dataset and "
         "_h5_load_field(group, k) for every k in [-T-1, T] vs the model (op series); (e) suffix dispatch of to_file/from_file "
-        "for 14 suffixes.  Oracle on the real code alone: from_file(to_file(f)) == f and every item the property lists is "
+        "for 14 suffixes; (f) the file as h5py shows it (model RawFile): every one of the 18 entries the reader looks up "
+        "removed in turn, the writer's two stamps removed, the corner table / the names dataset / both removed (with and without "
+        "subregions), foreign attributes, datasets and groups added, every looked-up attribute replaced by a value of another "
+        "type class (number for string, string for number/array, float for int; ndim by anything): accept/reject, resulting "
+        "state and element width vs the model's reader on the raw view (op rawload); for every round trip the names present "
+        "in the written file and the width of dataset 'array' vs the model's writer, the width of the array read back "
+        "(float16/32, int8/16/32 -> float64, complex64 stays), and the model's exactness predicate evaluated on the real "
+        "array (op rawsave); for float/complex arrays of <= 64 entries numpy's own narrowing conversion there and back decides "
+        "entry by entry which values belong to the next narrower binary format, compared with the model's predicate (op exact); "
+        "(g) to_file over a path that already holds a larger file with subregions and foreign entries / a legacy file / junk, "
+        "1-3 writes on two paths: from_file and the names left in each file vs the model's directory (op fs); legacy files "
+        "also with float32/complex64/int32 arrays, width read back vs model, invariant of the result (op invw); (h) the "
+        "subregions setter after repo fix 5591fed0 (D132): Mesh(region, n, subregions=...) with 1-2 candidate regions carrying "
+        "tolerance factors of their own (default, 0.3, 1e-2, 5.0, 1e-6) and own names/units, corners on the cell lattice or "
+        "off it by +-2^-20 ... 1/8 of a cell, on regions with the default or a loose tolerance factor, in the nm regime (the "
+        "absolute 1e-12 alignment tolerance is ~0.1 % of a cell) and the unit regime, all corners dyadic: constructor "
+        "accept/reject and stored mesh vs the model's TMesh.init (op mkmesh), then to_file / from_file as an ordinary round "
+        "trip (every model comparison and the oracle: a mesh the constructor accepted must be read back); the same "
+        "candidates as .subregions.json side-car (with their tolerance_factor) of a legacy file vs the model's legacy reader.  "
+        "Oracle on the real code alone: from_file(to_file(f)) == f and every item the property lists is "
         "identical (corners, names, units, tolerance, n, bc, subregion names/order/corners/meta, labels, unit incl. None, "
         "values bit-identical - int data numerically, real stays real, complex stays complex - validity, to_file leaves the "
         "field untouched, the datasets hold the numbers bit for bit); legacy files load to the documented field; every slot of "
@@ -64,17 +83,33 @@ ASSUMPTIONS = ["exact regime only: dyadic corners and cells, subregions on cell 
                "back as the default one (tag observation:custom-vdim_mapping-not-restored), model and code agree on that",
                "series writes: h5py would try to broadcast an array of another shape into a slot; the model accepts equal shapes "
                "only and the generator's wrong shapes (one component more) cannot be broadcast; float -> int slot writes use finite "
-               "values only (the C cast of NaN/inf to int64 is platform-defined)"]
-UNPROVED = ["h5_roundtrip_partial has three hypotheses that exclude inputs for which the property is FALSE of the code, each with a "
-            "proved negation: unit string 'None' (unit_None_is_lost, D32), integer data with more than 53 significant bits "
-            "(int_values_roundtrip_iff / int_beyond_2p53_is_rounded, D33), absent labels on a vector field (labels_none_are_lost / "
-            "labels_roundtrip_iff, D34); h5_roundtrip_reread describes the result for every field without exception",
-            "legacy_read_sidecar_fits covers side-cars whose boxes fit the mesh EXACTLY (C14.FitsE); acceptance by the setter's "
-            "tolerant tests of boxes that fit only within tolerance is still a hypothesis (legacy_read_sidecar), as in C14",
-            "reader_returns_inv covers the versioned layout; for a legacy file with a side-car whose boxes are accepted only within "
-            "tolerance Inv is not proved (its subregion clause asks for acceptance of the plain re-read box)",
-            "int/float conversion of CORNER arrays is exact in the model (see ASSUMPTIONS); float32/complex64/int32 widths are "
-            "observed by the oracle only (the model has dtype kinds, not widths)"]
+               "values only (the C cast of NaN/inf to int64 is platform-defined)",
+               "raw layer: 'of another type' is generated as a number for a string / list of strings, a string for a number or a "
+               "numeric array, a float for an integer (a plain string for dims/units of a 1-d region would be taken as one name and "
+               "is not generated); a valid dataset of integer dtype (converted by != 0) and string-typed arrays are not modelled",
+               "stream (h) uses dyadic corners and cells so that every comparison the setter makes (containment within "
+               "tolerance_factor, 0.1 % divisibility, absolute 1e-12 alignment, rtol 1e-5 on cells) is decided identically in "
+               "binary64 and in exact arithmetic (the thresholds are not dyadic: no near-ties); elsewhere subregions lie on cell "
+               "vertices",
+               "narrowing writes (a float64 field into a float32 slot of a series) are not modelled: series use 64-bit dtypes"]
+UNPROVED = ["the property is FALSE of the code on three input classes, each delimited by an equivalence with a proved negative "
+            "direction: unit string 'None' (unit_field_roundtrip_iff / unit_None_is_lost, D32), integer data with more than 53 "
+            "significant bits (int_values_roundtrip_iff / int_beyond_2p53_is_rounded, D33; impossible below 64 bits: "
+            "narrow_int_values_roundtrip), absent labels on a vector field (labels_roundtrip_iff / labels_none_are_lost, D34); "
+            "h5_roundtrip_items_iff states the item list iff none of the three applies.  The fourth class found in round 2 "
+            "(D132: a subregion accepted thanks to the candidate's own tolerance factor, file refused by from_file) is fixed in "
+            "/repo 5591fed0: every constructor-built field round-trips (constructor_field_roundtrips, mesh_constructor_inv), "
+            "whatever tolerance factors the candidates and the mesh region carry; for ARBITRARY states h5_reread_accepts_iff still "
+            "says exactly when the reader accepts the writer's file",
+            "acceptance of side-car boxes and of corner-table rows is characterised as 'passes the setter's test candOk' = the "
+            "three tolerant tests on the corner pair with the mesh's tolerance factor (setter_test_is_on_stored_copy, "
+            "legacy_sidecar_accepted_iff, versioned_accepted_iff: subAccept = C14's subOk); a closed-form geometric description of "
+            "the tolerant tests is C14's business",
+            "int/float conversion of CORNER arrays is exact in the model (corners below 2^53, see ASSUMPTIONS)",
+            "widths: the model has the width of the value array in the file and after reading, and an exactness predicate "
+            "(values of the narrower format); narrowing WRITES (rounding to binary32 when a float64 field is stored into a "
+            "float32 series slot) are not modelled, nor are several groups in one file (the library has no API for it besides the "
+            "slot helpers, which series_roundtrip covers)"]
 BUDGET = {"quick": 120, "thorough": 900}
 
 DIMNAMES = ["x", "y", "z", "a", "b", "c", "u", "v", "w", "t", "ξ", "len", "x0", "r_1"]
@@ -82,7 +117,8 @@ UNITS = ["m", "nm", "s", "µm", "Å", "", "m/s", "rad"]
 LABELS = ["a", "b", "c", "d", "mx", "my", "mz", "p", "q", "α", "v_1", "None", "x", "y", "z", "x1"]
 FUNITS = [None, None, "A/m", "T", "", "µT", "none", "J/m³", "None "]
 SUBNAMES = ["r1", "r2", "core", "shell", "größe", "default", "left", "s_3"]
-DTYPES = {"f8": np.float64, "c16": np.complex128, "i8": np.int64, "f4": np.float32, "c8": np.complex64, "i4": np.int32}
+DTYPES = {"f8": np.float64, "c16": np.complex128, "i8": np.int64, "f4": np.float32, "c8": np.complex64, "i4": np.int32,
+          "f2": np.float16, "i2": np.int16, "i1": np.int8}
 EXPECTED_LAYOUT = sorted([
     "@discretisedfield.__version__", "@file-creation-time-UTC", "@type", "@ubermag-hdf5-file-version",
     "field", "field@nvdim", "field@unit", "field@vdims", "field/array", "field/valid", "field/mesh",
@@ -166,7 +202,7 @@ def gen_rt(rng, nmax=5, max_cells=96, force=None):
     elif nvdim > 1 and not force.get("labelled") and rng.random() < 0.08:
         vd = []   # labels absent on a vector field (Field(..., vdims=[]) -> vdims None)
     unit = rng.choice(FUNITS)
-    dtype = force.get("dtype") or rng.choice(["f8", "f8", "f8", "c16", "c16", "i8", "i8", "f4", "c8", "i4"])
+    dtype = force.get("dtype") or rng.choice(["f8", "f8", "f8", "c16", "c16", "i8", "i8", "f4", "c8", "i4", "f4", "c8", "f2", "i2", "i1"])
     bigint = dtype == "i8" and not force.get("nobig") and rng.random() < 0.06   # integers binary64 does not hold (D33)
     special = dtype in ("f8", "c16") and rng.random() < 0.25
     vmap = None
@@ -192,6 +228,19 @@ TAMPERS = ["type", "type_case", "version", "noversion", "swapcorner", "eqcorner"
            "sub_inttable_from_float", "unit_none", "bc_upper", "bc_bad", "dims_dup", "dims_short", "units_short", "region_int",
            "tol_int", "array_int", "pmin_kind_mixed"]
 
+# raw layer: entries the reader looks up, removed one at a time / retyped / foreign entries added
+RAW_NAMES = ["@ubermag-hdf5-file-version", "@type", "field", "field@nvdim", "field@vdims", "field@unit", "field/array", "field/valid",
+             "field/mesh", "field/mesh@n", "field/mesh@bc", "field/mesh/region", "field/mesh/region@pmin", "field/mesh/region@pmax",
+             "field/mesh/region@dims", "field/mesh/region@ndim", "field/mesh/region@units", "field/mesh/region@tolerance_factor"]
+RAW_STAMPS = ["@discretisedfield.__version__", "@file-creation-time-UTC"]
+RAW_RETYPE = {"@ubermag-hdf5-file-version": [0.1, 1], "@type": [5], "field@nvdim": [2.0, "2"], "field@vdims": [5, 1.5], "field@unit": [5, 2.5],
+              "field/mesh@n": ["21", "floats"], "field/mesh@bc": [0], "field/mesh/region@pmin": ["ab"], "field/mesh/region@pmax": ["ab"],
+              "field/mesh/region@dims": [5], "field/mesh/region@units": [5], "field/mesh/region@ndim": ["x", 7, 2.5],
+              "field/mesh/region@tolerance_factor": ["abc"]}
+RAW_TAMPERS = (["raw_del:" + n for n in RAW_NAMES + RAW_STAMPS] +
+               ["raw_del:field/mesh/subregions", "raw_del:field/mesh/subregion_names", "raw_del:subs_both", "raw_extra", "raw_none"] +
+               ["raw_retype:" + n for n in RAW_RETYPE])
+
 SUFFIXES = [".h5", ".hdf5", ".H5", ".hdf", ".hd5", ".txt", "", ".h5.bak", ".omf", ".ovf", ".ohf", ".oef", ".vtk", ".json"]
 
 
@@ -215,8 +264,27 @@ def cases(rng, tier):
             base["tamper"] = t
             base["special"] = False
             yield base
+    for t in RAW_TAMPERS:
+        for i in range(2 if quick else 12):
+            base = gen_rt(rng, max_cells=24, force=dict(nobig=True, nsub=(0 if (i % 2 and "sub" in t) else rng.choice([1, 2]))))
+            base["kind"] = "tamper"
+            base["free"] = None
+            base["tamper"] = t
+            base["special"] = False
+            yield base
+    for _ in range(40 if quick else 300):
+        # to_file on a path that already holds something (a larger file with subregions, a legacy file, junk): mode "w"
+        ws = []
+        for _ in range(rng.choice([1, 2, 2, 3])):
+            w = gen_rt(rng, max_cells=24, force=dict(nobig=True, labelled=True))   # D32/D33/D34 inputs belong to the rt stream
+            if w["unit"] == "None":
+                w["unit"] = None
+            w["path"] = rng.choice(["a", "a", "b"])
+            ws.append(w)
+        yield dict(kind="overwrite", writes=ws, pre=rng.choice(["none", "legacy", "junk", "bigger"]), sub=rng.getrandbits(32),
+                   suffix=rng.choice([".h5", ".hdf5"]))
     for _ in range(80 if quick else 500):
-        base = gen_rt(rng, force=dict(dtype=rng.choice(["f8", "f8", "c16", "i8"]), nobig=True))
+        base = gen_rt(rng, force=dict(dtype=rng.choice(["f8", "f8", "c16", "i8", "f4", "c8", "i4"]), nobig=True))
         base["kind"] = "legacy"
         base["special"] = base["dtype"] in ("f8", "c16") and rng.random() < 0.2
         base["sidecar"] = rng.choice(["none", "none", "ok", "ok", "bad"]) if base["subs"] else "none"
@@ -224,10 +292,46 @@ def cases(rng, tier):
         base["p2first"] = rng.random() < 0.3
         base["mixswap"] = rng.getrandbits(16) if rng.random() < 0.35 else None   # legacy files keep p1/p2 as the user gave them: any order per axis
         yield base
+    for _ in range(140 if quick else 900):
+        yield gen_ctor(rng)
     for _ in range(110 if quick else 700):
         yield gen_series(rng)
     for s in SUFFIXES:
         yield dict(kind="suffix", suffix=s, sub=rng.getrandbits(32))
+
+
+TOLS = [None, None, 0.3, 1e-2, 5.0, 1e-6]
+CTOR_EPS = ([Fraction(1, 2 ** 12), Fraction(-1, 2 ** 12)] * 3 + [Fraction(1, 2 ** 20), Fraction(-1, 2 ** 20)] * 2 +
+            [Fraction(1, 2 ** 9), Fraction(-1, 2 ** 9), Fraction(1, 2 ** 14), Fraction(-1, 2 ** 14), Fraction(1, 8), Fraction(-1, 8)])
+
+
+def gen_ctor(rng):
+    """candidate subregions with loose tolerance factors of their own, close to / off the cell lattice, on meshes whose region
+    carries the default or a loose tolerance factor; nm regime (where the absolute 1e-12 alignment tolerance is 0.1 % of a
+    cell) and unit regime; all corners dyadic so every comparison on the code path is exact (the thresholds are not dyadic)"""
+    base = gen_rt(rng, max_cells=24, force=dict(nobig=True, labelled=True, nsub=0, dtype=rng.choice(["f8", "f8", "c16", "i8", "f4"])))
+    if base["unit"] == "None":
+        base["unit"] = None
+    ndim = rng.choice([1, 1, 2, 3])
+    scale = Fraction(1, 2 ** 30) if rng.random() < 0.7 else Fraction(1)
+    n = [rng.randint(2, 5) for _ in range(ndim)]
+    cell = [Fraction(rng.choice([1, 1, 3, 5]), rng.choice([1, 2, 4])) * scale for _ in range(ndim)]
+    origin = [rng.randint(-3, 3) * c for c in cell]
+    cands = []
+    for name in rng.sample(SUBNAMES, rng.choice([1, 1, 2])):
+        lo, hi, elo, ehi = [], [], [], []
+        for a in range(ndim):
+            i, j = sorted(rng.sample(range(n[a] + 1), 2))
+            lo.append(i), hi.append(j)
+            elo.append(Q(rng.choice(CTOR_EPS) if rng.random() < 0.2 else Fraction(0)))
+            ehi.append(Q(rng.choice(CTOR_EPS) if rng.random() < 0.45 else Fraction(0)))
+        cands.append(dict(name=name, lo=lo, hi=hi, elo=elo, ehi=ehi, tol=rng.choice(TOLS),
+                          dims=(rng.sample(DIMNAMES, ndim) if rng.random() < 0.2 else None),
+                          units=([rng.choice(UNITS) for _ in range(ndim)] if rng.random() < 0.2 else None)))
+    base.update(kind="ctor", free=None, vmap=None, special=False, dims=None, units=None, bc="", subs=[], swap=[False] * ndim,
+                ctor=dict(n=n, cell=[Q(c) for c in cell], origin=[Q(o) for o in origin], rtol=rng.choice(TOLS), cands=cands,
+                          mode=rng.choice(["mesh", "mesh", "mesh", "legacy"])))
+    return base
 
 
 def gen_series(rng):
@@ -302,7 +406,11 @@ def make_array(rng, shape, dtype_name, special=False, bigint=False):
             pool += [2 ** 53 + 1, -2 ** 62 - 1, 2 ** 53 + 3, -(2 ** 53 + 2), (2 ** 53 + 1) << rng.randint(0, 9),
                      rng.randint(-2 ** 63, 2 ** 63 - 1), rng.randint(2 ** 53, 2 ** 56), 2 ** 63 - 1, -2 ** 63,
                      (rng.getrandbits(53) | 2 ** 52) << rng.randint(1, 10), ((rng.getrandbits(53) | 2 ** 52) << 2) + 2]
-        vals = [rng.choice([rng.randint(-9, 9), rng.randint(-2 ** 40, 2 ** 40)] + pool) if (big or bigint) else rng.randint(-9, 9)
+        info = np.iinfo(dt)
+        narrow = dtype_name != "i8" and rng.random() < 0.4   # the whole range of a narrow integer type, extremes included
+        vals = [rng.choice([rng.randint(-9, 9), rng.randint(-2 ** 40, 2 ** 40)] + pool) if (big or bigint) else
+                (rng.choice([int(info.min), int(info.max), rng.randint(int(info.min), int(info.max))]) if narrow and rng.random() < 0.5
+                 else rng.randint(-9, 9))
                 for _ in range(size)]
         a = np.array(vals, dtype=dt).reshape(shape)
     elif kind == "f":
@@ -348,8 +456,8 @@ def gen_array(c, mesh):
     return a, mask
 
 
-def build_field(c):
-    mesh = build_mesh(c)
+def build_field(c, mesh=None):
+    mesh = build_mesh(c) if mesh is None else mesh
     a, mask = gen_array(c, mesh)
     kw = {}
     if c["vdims"] is not None:
@@ -520,6 +628,91 @@ def file_json(path):
         out["field"] = dict(mesh=mesh, nvdim=int(g.attrs["nvdim"]), vdims=vd, unit=_attr_str(g.attrs["unit"]),
                             array=darr_json(arr[()]), valid=varr_json(g["valid"][()]))
         out["_"] = extra
+        return out
+
+
+def width_bits(dt):
+    dt = np.dtype(dt)
+    return dt.itemsize * 8 // (2 if dt.kind == "c" else 1)
+
+
+_KNOWN_NAMES = None
+
+
+def _av(attrs, name, kind):
+    """one attribute as the reader can tell it: absent / of the writer's type / of another type class"""
+    if name not in attrs:
+        return {"a": 1}
+    v = attrs[name]
+    other = {"o": 1}
+    if kind == "str":
+        return {"v": v} if type(v) is str else other
+    if kind == "strs":
+        a = np.asarray(v)
+        return {"v": _attr_strs(v)} if (not isinstance(v, str) and a.ndim == 1 and a.dtype.kind in "OUS") else other
+    if kind == "int":
+        return {"v": int(v)} if isinstance(v, (int, np.integer)) and not isinstance(v, (bool, np.bool_)) else other
+    if kind == "nat":
+        return {"v": int(v)} if isinstance(v, (int, np.integer)) and not isinstance(v, (bool, np.bool_)) and int(v) >= 0 else other
+    if kind == "ints":
+        a = np.asarray(v)
+        return {"v": [Q(int(x)) for x in a.tolist()]} if (isinstance(v, np.ndarray) and a.ndim == 1 and a.dtype.kind in "iu") else other
+    if kind == "numarr":
+        a = np.asarray(v)
+        return {"v": numarr_json(a)} if (isinstance(v, np.ndarray) and a.ndim == 1 and a.dtype.kind in "iuf") else other
+    if kind == "num":
+        return {"v": num_json(v)} if isinstance(v, (np.integer, np.floating)) else other
+    if kind == "vdims":
+        if type(v) is str:
+            return {"v": {"str": v}}
+        a = np.asarray(v)
+        return {"v": {"list": _attr_strs(v)}} if (a.ndim == 1 and a.dtype.kind in "OUS") else other
+    raise core.MachineryError(kind)
+
+
+def raw_json(path):
+    """the file as h5py shows it to the reader: every entry the reader may look up is absent / typed / of another type;
+    everything else is listed under extras (model: RawFile)"""
+    with h5py.File(path, "r") as h:
+        names = layout(h)
+        out = dict(version=_av(h.attrs, "ubermag-hdf5-file-version", "str"), type=_av(h.attrs, "type", "str"), field=None, legacy=None)
+        known = {"@ubermag-hdf5-file-version", "@type"}
+        if "field" in h and isinstance(h["field"], h5py.Group):
+            g = h["field"]
+            known.add("field")
+            fj = dict(nvdim=_av(g.attrs, "nvdim", "int"), vdims=_av(g.attrs, "vdims", "vdims"), unit=_av(g.attrs, "unit", "str"),
+                      array=None, valid=None, mesh=None)
+            known |= {"field@nvdim", "field@vdims", "field@unit"}
+            if "array" in g:
+                known.add("field/array")
+                fj["array"] = dict(w=width_bits(g["array"].dtype), arr=darr_json(g["array"][()]))
+            if "valid" in g:
+                known.add("field/valid")
+                if g["valid"].dtype != np.bool_:
+                    raise core.MachineryError("raw view: a valid dataset that is not bool is not modelled")
+                fj["valid"] = varr_json(g["valid"][()])
+            if "mesh" in g:
+                gm = g["mesh"]
+                known |= {"field/mesh", "field/mesh@n", "field/mesh@bc"}
+                mj = dict(n=_av(gm.attrs, "n", "ints"), bc=_av(gm.attrs, "bc", "str"), names=None, table=None, region=None)
+                if "subregion_names" in gm:
+                    known.add("field/mesh/subregion_names")
+                    mj["names"] = [x.decode("utf-8") if isinstance(x, bytes) else _attr_str(x) for x in gm["subregion_names"][()].tolist()]
+                if "subregions" in gm:
+                    known.add("field/mesh/subregions")
+                    t = gm["subregions"]
+                    mj["table"] = dict(k=_nk(t), rows=[[Q(x) for x in row] for row in t[()].tolist()])
+                if "region" in gm:
+                    gr = gm["region"]
+                    known.add("field/mesh/region")
+                    known |= {"field/mesh/region@" + a for a in ("pmin", "pmax", "dims", "ndim", "units", "tolerance_factor")}
+                    mj["region"] = dict(pmin=_av(gr.attrs, "pmin", "numarr"), pmax=_av(gr.attrs, "pmax", "numarr"),
+                                        dims=_av(gr.attrs, "dims", "strs"), ndim=_av(gr.attrs, "ndim", "nat"),
+                                        units=_av(gr.attrs, "units", "strs"), tol=_av(gr.attrs, "tolerance_factor", "num"))
+                fj["mesh"] = mj
+            out["field"] = fj
+        out["extras"] = sorted(n for n in names if n not in known)
+        out["_names"] = names
         return out
 
 
@@ -749,6 +942,50 @@ def tamper(path, how, c, rng):
     return how
 
 
+def tamper_raw(path, how, rng):
+    """remove / retype one entry the reader looks up, or add foreign entries"""
+    kind, _, name = how.partition(":")
+    with h5py.File(path, "a") as h:
+        def holder(nm):
+            if nm.startswith("@"):
+                return h.attrs, nm[1:]
+            if "@" in nm:
+                g, a = nm.split("@")
+                return h[g].attrs, a
+            return h, nm
+        if kind == "raw_none":
+            return how
+        if kind == "raw_extra":
+            h.attrs["foo"] = 1
+            h["field"].attrs["bar"] = "x"
+            h["field/mesh"].attrs["baz"] = [1, 2]
+            h["field/mesh/region"].attrs["qux"] = 2.5
+            h.create_dataset("other", data=[1, 2, 3])
+            h["field"].create_dataset("more", data=[1.0])
+            h["field/mesh"].create_group("grp")
+            if rng.random() < 0.5:
+                h["field/mesh/region"].attrs["p1"] = [0.0]
+            return how
+        if kind == "raw_del":
+            if name == "subs_both":
+                for nm in ("field/mesh/subregions", "field/mesh/subregion_names"):
+                    if nm in h:
+                        del h[nm]
+                return how
+            where, key = holder(name)
+            if key in where:
+                del where[key]
+            return how
+        if kind == "raw_retype":
+            where, key = holder(name)
+            v = rng.choice(RAW_RETYPE[name])
+            if v == "floats":
+                v = np.asarray(where[key], dtype=float)
+            where[key] = v
+            return how
+    raise core.MachineryError(f"unknown raw tamper {how}")
+
+
 # ------------------------------------------------------------------------------ legacy files
 def _legacy_corners(c, r):
     p1, p2 = (r.pmax.copy(), r.pmin.copy()) if c.get("p2first") else (r.pmin.copy(), r.pmax.copy())
@@ -872,8 +1109,20 @@ def run_impl(case):
             obs["tags"].append("suffix:" + (case["suffix"] or "<none>"))
             return obs
 
-        f = build_field(case)
+        if case["kind"] == "overwrite":
+            run_overwrite(case, tmp, obs, fail)
+            return obs
+
+        kind = case["kind"]
+        if kind == "ctor":
+            f = run_ctor(case, tmp, obs, fail)
+            if f is None:
+                return obs
+            kind = "rt"   # a constructor-built field: from here on an ordinary round trip
+        else:
+            f = build_field(case)
         obs["state"] = state_json(f)
+        obs["w"] = width_bits(f.array.dtype)
         obs["tags"] += [f"ndim:{f.mesh.region.ndim}", f"nvdim:{f.nvdim}", f"dtype:{case['dtype']}",
                         f"corners:{_nk(f.mesh.region.pmin)}/" + ("".join(sorted({_nk(s.pmin) for s in f.mesh.subregions.values()})) or "-"),
                         f"nsub:{len(f.mesh.subregions)}", "labels:" + ("custom" if case["vdims"] else "none-vector" if (f.vdims is None and f.nvdim > 1) else
@@ -890,7 +1139,7 @@ def run_impl(case):
         r_ = f.mesh.region
         obs["mem_dtypes"] = [str(r_.pmin.dtype), str(r_.pmax.dtype), str(np.asarray(r_.tolerance_factor).dtype), str(f.mesh.n.dtype)]
 
-        if case["kind"] == "legacy":
+        if kind == "legacy":
             path = os.path.join(tmp, "legacy" + case["suffix"])
             side = write_legacy(path, case, f)
             obs["legacy"] = legacy_json(case, f, side)
@@ -901,6 +1150,7 @@ def run_impl(case):
                 oracle_legacy(case, f, side, res, fail)
             if res[0] == "ok":
                 obs["loaded"] = state_json(res[1])
+                obs["loaded_w"] = width_bits(res[1].array.dtype)
             # the documented reader (component count passed as nvdim), executed with the real constructors
             def documented():
                 r = f.mesh.region
@@ -918,7 +1168,7 @@ def run_impl(case):
             obs["nontrivial"] = True
             return obs
 
-        if case["kind"] == "series":
+        if kind == "series":
             run_series(case, f, tmp, obs, fail)
             return obs
 
@@ -926,9 +1176,40 @@ def run_impl(case):
         f.to_file(path)
         if (bits(f.array), bits(f.valid), json.dumps(mesh_json(f.mesh), sort_keys=True)) != snap:
             fail("to_file modified the field")
+        if kind == "tamper" and case["tamper"].startswith("raw_"):
+            how = tamper_raw(path, case["tamper"], rng)
+            obs["tags"].append("tamper:" + how.split(":")[0])
+            rj = raw_json(path)
+            obs["raw_names"] = rj.pop("_names")
+            obs["raw"] = rj
+            res = _try(lambda: df.Field.from_file(path))
+            obs["res"] = res[0]
+            obs["err"] = res[1] if res[0] == "err" else None
+            obs["tags"].append(f"tamper-{how}:{res[0]}")
+            if res[0] == "ok":
+                obs["loaded"] = state_json(res[1])
+                obs["loaded_w"] = width_bits(res[1].array.dtype)
+            obs["nontrivial"] = True
+            return obs
         view = _try(lambda: file_json(path))
         if view[0] == "ok":
             fj = view[1]
+            obs["file_w"] = width_bits(np.dtype(fj["_"]["array_dtype"]))
+            if kind == "rt" and f.array.size <= 64 and f.array.dtype.kind in "fc":
+                # which entries are values of the next narrower binary format (numpy's own conversion there and back)
+                nb = {64: 32, 32: 16, 16: 16}[obs["w"]]
+                wide = f.array.astype(np.complex128 if f.array.dtype.kind == "c" else np.float64)
+                narrow = wide.astype({("f", 32): np.float32, ("f", 16): np.float16, ("c", 32): np.complex64}.get((f.array.dtype.kind, nb), np.float16)) \
+                    if (f.array.dtype.kind, nb) != ("c", 16) else None
+                if narrow is not None:
+                    back = narrow.astype(wide.dtype)
+                    per = 16 if wide.dtype.kind == "c" else 8
+                    bw, bb = bits(wide), bits(back)
+                    obs["narrow"] = dict(w=nb, flags=[bw[i:i + per] == bb[i:i + per] for i in range(0, len(bw), per)])
+            if kind == "rt" and case["sub"] % 4 == 0:
+                rj = raw_json(path)
+                obs["raw_names"] = rj.pop("_names")
+                obs["raw"] = rj
             obs["file_written"] = strip(fj)
             obs["layout"] = fj["_"]["layout"]
             obs["extra"] = {k: v for k, v in fj["_"].items() if not k.endswith("_raw") and k != "layout"}
@@ -936,7 +1217,7 @@ def run_impl(case):
         else:
             obs["view_error"] = view[1]
 
-        if case["kind"] == "rt":
+        if kind == "rt":
             res = _try(lambda: df.Field.from_file(path))
             obs["res"] = res[0]
             if res[0] != "ok":
@@ -945,6 +1226,7 @@ def run_impl(case):
                 g = res[1]
                 obs["loaded"] = state_json(g)
                 obs["loaded_dtype"] = str(g.array.dtype)
+                obs["loaded_w"] = width_bits(g.array.dtype)
                 oracle_roundtrip(f, g, fail)
                 if case.get("vmap") and g.vdim_mapping != f.vdim_mapping:
                     obs["tags"].append("observation:custom-vdim_mapping-not-restored")
@@ -974,6 +1256,115 @@ def run_impl(case):
             obs["loaded"] = state_json(res[1])
         obs["nontrivial"] = True
     return obs
+
+
+def _ctor_objects(c):
+    k = c["ctor"]
+    ndim = len(k["n"])
+    cell, origin = [Fraction(x) for x in k["cell"]], [Fraction(x) for x in k["origin"]]
+    p2 = [o + n * h for o, n, h in zip(origin, k["n"], cell)]
+    kw = {} if (k["rtol"] is None or k["mode"] == "legacy") else dict(tolerance_factor=k["rtol"])
+    region = df.Region(p1=tuple(float(x) for x in origin), p2=tuple(float(x) for x in p2), **kw)
+    cands = {}
+    for s_ in k["cands"]:
+        lo = [origin[a] + (s_["lo"][a] + Fraction(s_["elo"][a])) * cell[a] for a in range(ndim)]
+        hi = [origin[a] + (s_["hi"][a] + Fraction(s_["ehi"][a])) * cell[a] for a in range(ndim)]
+        ckw = {}
+        if s_["tol"] is not None:
+            ckw["tolerance_factor"] = s_["tol"]
+        if s_["dims"]:
+            ckw["dims"] = s_["dims"]
+        if s_["units"]:
+            ckw["units"] = s_["units"]
+        cands[s_["name"]] = df.Region(p1=tuple(float(x) for x in lo), p2=tuple(float(x) for x in hi), **ckw)
+    return region, cands
+
+
+def run_ctor(case, tmp, obs, fail):
+    """Mesh(region, n, subregions=candidates with their own tolerance factors) on the real code; returns the field to be
+    written (mode mesh, constructor accepted) or None"""
+    k = case["ctor"]
+    region, cands = _ctor_objects(case)
+    obs["ctor"] = dict(region=region_json(region), n=[Q(int(x)) for x in k["n"]], bc="",
+                       subs=[dict(name=nm, region=region_json(r)) for nm, r in cands.items()])
+    obs["tags"] += ["ctor-mode:" + k["mode"], "ctor-rtol:" + str(k["rtol"]), "ctor-scale:" + ("nm" if Fraction(k["cell"][0]) < Fraction(1, 1000) else "unit")]
+    obs["tags"] += ["ctor-cand-tol:" + str(s_["tol"]) for s_ in k["cands"]]
+    offl = any(Fraction(e) != 0 for s_ in k["cands"] for e in s_["elo"] + s_["ehi"])
+    obs["nontrivial"] = True
+    if k["mode"] == "legacy":
+        # a legacy file on the same geometry; the candidates travel in the side-car json with their tolerance factors
+        mesh0 = df.Mesh(region=region, n=tuple(k["n"]))
+        f = build_field(case, mesh0)
+        obs["state"] = state_json(f)
+        obs["w"] = width_bits(f.array.dtype)
+        path = os.path.join(tmp, "legacy" + case["suffix"])
+        write_legacy(path, dict(case, sidecar="none"), f)
+        side = [(nm, dict(pmin=r.pmin.tolist(), pmax=r.pmax.tolist(), dims=list(r.dims), units=list(r.units),
+                          tolerance_factor=r.tolerance_factor)) for nm, r in cands.items()]
+        with open(str(path) + ".subregions.json", "w", encoding="utf-8") as fh:
+            json.dump(dict(side), fh)
+        obs["legacy"] = legacy_json(case, f, side)
+        res = _try(lambda: df.Field.from_file(path))
+        obs["res"] = res[0]
+        obs["tags"].append(f"ctor-legacy:{res[0]}:{'off' if offl else 'on'}-lattice")
+        if not offl:
+            oracle_legacy(case, f, side, res, fail)   # boxes of whole cells on the lattice: must be read, whatever tolerance they carry
+        if res[0] == "ok":
+            obs["loaded"] = state_json(res[1])
+            obs["loaded_w"] = width_bits(res[1].array.dtype)
+        return None
+    made = _try(lambda: df.Mesh(region=region, n=tuple(k["n"]), subregions=cands))
+    obs["ctor_res"] = made[0]
+    obs["tags"].append(f"ctor:{made[0]}:{'off' if offl else 'on'}-lattice")
+    if made[0] != "ok":
+        if not offl:
+            fail(f"Mesh(...) refused subregions made of whole cells on the lattice: {made[1]}")
+        return None
+    obs["ctor_mesh"] = mesh_json(made[1])
+    return build_field(case, made[1])
+
+
+def run_overwrite(case, tmp, obs, fail):
+    """to_file on paths that already hold something: the file is replaced as a whole"""
+    rng = random.Random(case["sub"])
+    paths = {k: os.path.join(tmp, k + case["suffix"]) for k in ("a", "b")}
+    first = case["writes"][0]
+    if case["pre"] == "junk":
+        with open(paths[first["path"]], "wb") as fh:
+            fh.write(bytes(rng.getrandbits(8) for _ in range(300)))
+    elif case["pre"] in ("legacy", "bigger"):
+        big = gen_rt(random.Random(case["sub"] ^ 1), max_cells=48, force=dict(nobig=True, nsub=2, dtype="f8"))
+        fb = build_field(big)
+        if case["pre"] == "legacy":
+            write_legacy(paths[first["path"]], dict(big, sidecar="none"), fb)
+        else:
+            fb.to_file(paths[first["path"]])
+            with h5py.File(paths[first["path"]], "a") as h:
+                h.attrs["left-over"] = "x"
+                h["field"].create_dataset("stale", data=np.arange(50.0))
+    sent, last = [], {}
+    for w in case["writes"]:
+        f = build_field(w)
+        f.to_file(paths[w["path"]])
+        sent.append(dict(path=w["path"], field=state_json(f), w=width_bits(f.array.dtype)))
+        last[w["path"]] = f
+    obs["fs_writes"] = sent
+    obs["fs_reads"] = sorted(last)
+    loads, names = [], []
+    for k in obs["fs_reads"]:
+        res = _try(lambda: df.Field.from_file(paths[k]))
+        if res[0] != "ok":
+            fail(f"from_file rejected the file to_file wrote over an existing {case['pre']} file: {res[1]}")
+            loads.append(None)
+        else:
+            loads.append(dict(field=state_json(res[1]), w=width_bits(res[1].array.dtype)))
+            oracle_roundtrip(last[k], res[1], lambda t, k=k: fail(f"overwritten file {k}: {t}"))
+        with h5py.File(paths[k], "r") as h:
+            names.append(layout(h))
+    obs["fs_loads"] = loads
+    obs["fs_names"] = names
+    obs["tags"] += [f"overwrite-pre:{case['pre']}", f"overwrite-writes:{len(sent)}"]
+    obs["nontrivial"] = True
 
 
 def run_series(case, f0, tmp, obs, fail):
@@ -1032,26 +1423,47 @@ def run_series(case, f0, tmp, obs, fail):
 
 # ------------------------------------------------------------------------------ model side
 def model_requests(case, obs):
-    if case["kind"] == "suffix":
+    kind = case["kind"]
+    pre = []
+    if kind == "ctor":
+        if case["ctor"]["mode"] == "legacy":
+            kind = "legacy"
+        else:
+            pre = [dict(op="mkmesh", **obs["ctor"])]
+            if obs.get("ctor_res") != "ok":
+                return pre
+            kind = "rt"
+    return pre + _model_requests(case, obs, kind)
+
+
+def _model_requests(case, obs, kind):
+    if kind == "suffix":
         return [dict(op="fmt", suffix=case["suffix"])]
-    if case["kind"] == "legacy":
-        return [dict(op="load", file=dict(version=None, legacy=obs["legacy"]))] + (
-            [dict(op="inv", field=obs["loaded"])] if "loaded" in obs else [])
-    if case["kind"] == "series":
+    if kind == "overwrite":
+        return [dict(op="fs", pre=[], writes=obs["fs_writes"], reads=obs["fs_reads"])]
+    if kind == "legacy":
+        raw = dict(version={"a": 1}, type={"a": 1}, field=None, legacy=dict(w=obs["w"], legacy=obs["legacy"]), extras=[])
+        return [dict(op="load", file=dict(version=None, legacy=obs["legacy"])), dict(op="rawload", raw=raw)] + (
+            [dict(op="invw", field=obs["loaded"])] if "loaded" in obs else [])
+    if kind == "series":
         if "series_writes" not in obs:
             return []
         return [dict(op="series", field=obs["state"], T=case["T"], writes=obs["series_writes"], reads=obs["series_reads"]),
                 dict(op="inv", field=obs["state"])]
     if "state" not in obs:
         return []
-    if case["kind"] == "rt":
+    if kind == "rt":
         if "file_written" not in obs:
             return [dict(op="inv", field=obs["state"])]
         reqs = [dict(op="save", field=obs["state"]), dict(op="load", file=obs["file_written"]),
                 dict(op="spec", field=obs["state"], file=obs["file_written"]), dict(op="inv", field=obs["state"])]
-        if "loaded" in obs:
-            reqs.append(dict(op="inv", field=obs["loaded"]))
+        reqs.append(dict(op="inv", field=obs["loaded"]) if "loaded" in obs else dict(op="fmt", suffix=".h5"))
+        reqs.append(dict(op="rawsave", field=obs["state"], w=obs["w"]))
+        reqs.append(dict(op="exact", data=obs["state"]["data"], w=obs["narrow"]["w"]) if "narrow" in obs else dict(op="fmt", suffix=".h5"))
+        reqs.append(dict(op="rawload", raw=obs["raw"]) if "raw" in obs else dict(op="fmt", suffix=".h5"))
         return reqs
+    if "raw" in obs:
+        return [dict(op="rawload", raw=obs["raw"])] + ([dict(op="inv", field=obs["loaded"])] if "loaded" in obs else [])
     if "file" not in obs:
         return []
     if obs["file"].get("version") is None:
@@ -1156,8 +1568,34 @@ def cmp_file(a, b, dis):
 
 
 def compare(case, obs, rs):
+    kind = case["kind"]
+    if kind == "ctor":
+        if case["ctor"]["mode"] == "legacy":
+            return _compare(case, obs, rs, "legacy")
+        r = rs[0]
+        dis = []
+        if ("ok" in r) != (obs["ctor_res"] == "ok"):
+            dis.append(f"Mesh(region, n, subregions) with candidate tolerance factors {[c['tol'] for c in case['ctor']['cands']]} on a region with "
+                       f"tolerance factor {case['ctor']['rtol']}: impl {obs['ctor_res']} vs model {'ok' if 'ok' in r else r}")
+        elif "ok" in r:
+            a, b = obs["ctor_mesh"], r["ok"]
+            _cmp_region("constructed mesh.region", a["region"], b["region"], dis)
+            if a["n"] != b["n"] or a["bc"] != b["bc"]:
+                dis.append(f"constructed mesh: n/bc impl {a['n']}/{a['bc']!r} vs model {b['n']}/{b['bc']!r}")
+            if [x["name"] for x in a["subs"]] != [x["name"] for x in b["subs"]]:
+                dis.append("constructed mesh: subregion names differ")
+            else:
+                for sa, sb in zip(a["subs"], b["subs"]):
+                    _cmp_region(f"constructed mesh.subregion[{sa['name']}]", sa["region"], sb["region"], dis)
+        if obs["ctor_res"] != "ok" or "ok" not in r:
+            return dis
+        return dis + _compare(case, obs, rs[1:], "rt")
+    return _compare(case, obs, rs, kind)
+
+
+def _compare(case, obs, rs, kind):
     dis = []
-    if case["kind"] == "suffix":
+    if kind == "suffix":
         r = rs[0]
         mw = r["write"] if r["write"] in ("hdf5", "err") else "other"
         mr = r["read"] if r["read"] in ("hdf5", "err") else "other"
@@ -1167,19 +1605,41 @@ def compare(case, obs, rs):
             dis.append(f"from_file suffix {case['suffix']!r}: impl {obs['read']} vs model {mr}")
         return dis
     if not rs:
-        if case["kind"] == "tamper" and obs.get("res") == "ok":
+        if kind == "tamper" and obs.get("res") == "ok":
             dis.append("file without version attribute and without legacy datasets accepted")
         return dis
-    if case["kind"] == "legacy":
+    if kind == "overwrite":
+        r = rs[0]
+        for k, a, b, na, nb in zip(obs["fs_reads"], obs["fs_loads"], r["loads"], obs["fs_names"], r["names"]):
+            if (a is not None) != ("ok" in b):
+                dis.append(f"overwritten file {k}: from_file impl {'ok' if a is not None else 'err'} vs model {'ok' if 'ok' in b else b}")
+            elif a is not None:
+                cmp_state(f"overwritten file {k}", a["field"], b["ok"]["field"], dis)
+                if a["w"] != b["ok"]["w"]:
+                    dis.append(f"overwritten file {k}: element width read back impl {a['w']} vs model {b['ok']['w']}")
+            if nb is None or sorted(na) != sorted(nb):
+                dis.append(f"overwritten file {k}: entries left in the file {sorted(set(na) - set(nb or []))} / missing {sorted(set(nb or []) - set(na))} "
+                           "(to_file must replace the file as a whole)")
+        return dis
+    if kind == "legacy":
         r = rs[0]
         if ("ok" in r) != (obs["res"] == "ok"):
             dis.append(f"legacy reader: impl {obs['res']} vs model {'ok' if 'ok' in r else r}")
         elif "ok" in r:
             cmp_state("legacy", obs["loaded"], r["ok"], dis)
-        if len(rs) > 1 and not rs[1]["ok"]:   # legacy_field_inv / legacy_sidecar_field_inv
+        rw = rs[1]
+        if ("ok" in rw) != (obs["res"] == "ok"):
+            dis.append(f"legacy reader (raw view): impl {obs['res']} vs model {'ok' if 'ok' in rw else rw}")
+        elif "ok" in rw:
+            cmp_state("legacy(raw)", obs["loaded"], rw["ok"]["field"], dis)
+            if rw["ok"]["w"] != obs["loaded_w"]:
+                dis.append(f"legacy file: element width of the array read impl {obs['loaded_w']} vs model {rw['ok']['w']} (stored {obs['w']})")
+        if len(rs) > 2 and not rs[2]["invw"]:   # legacy_reader_returns_inv (InvW part)
+            dis.append("the field from_file returned for a legacy file violates the constructors' weak invariant InvW")
+        if len(rs) > 2 and not rs[2]["inv"]:   # legacy_reader_returns_inv
             dis.append("the field from_file returned for a legacy file violates the constructors' invariant Inv")
         return dis
-    if case["kind"] == "series":
+    if kind == "series":
         r, inv = rs
         if not inv["ok"]:
             dis.append("theorem hypothesis Inv does not hold for the state of the field whose structure is saved")
@@ -1193,15 +1653,38 @@ def compare(case, obs, rs):
             elif a is not None:
                 cmp_state(f"series slot {k}", a, b["ok"], dis)
         return dis
-    if case["kind"] == "rt" and "view_error" in obs:
+    if kind == "rt" and "view_error" in obs:
         return [f"written file does not have the documented layout (h5py view failed: {obs['view_error']})"]
-    if case["kind"] == "rt":
+    if kind == "rt":
         saved, ld, spec, inv = rs[:4]
+        rsave, rexact, rload = rs[5], rs[6], rs[7]
+        if sorted(rsave["names"]) != sorted(obs.get("layout", [])):
+            dis.append(f"file entries: impl has {sorted(set(obs.get('layout', [])) - set(rsave['names']))} more, model has "
+                       f"{sorted(set(rsave['names']) - set(obs.get('layout', [])))} more")
+        if rsave["w"] != obs.get("file_w"):
+            dis.append(f"element width of dataset 'array': impl {obs.get('file_w')} vs model {rsave['w']} (array in memory {obs['w']})")
+        if not rsave["exact"]:
+            dis.append(f"model: an entry of a real {case['dtype']} array is not a value of the {obs['w']}-bit type (exactness predicate)")
+        if "loaded_w" in obs and "ok" in rsave["load"] and rsave["load"]["ok"]["w"] != obs["loaded_w"]:
+            dis.append(f"element width of the array read back: impl {obs['loaded_w']} vs model {rsave['load']['ok']['w']} (written {obs['w']})")
+        if "narrow" in obs and rexact["flags"] != obs["narrow"]["flags"]:
+            k = next(i for i, (x, y) in enumerate(zip(rexact["flags"], obs["narrow"]["flags"])) if x != y)
+            dis.append(f"which entries are values of the {obs['narrow']['w']}-bit format: numpy and the model's predicate differ at flat position {k} "
+                       f"(numpy {obs['narrow']['flags'][k]})")
+        if "raw" in obs:
+            if sorted(obs["raw_names"]) != sorted(obs.get("layout", [])):
+                dis.append("harness: raw view lists other names than the layout")
+            if ("ok" in rload) != (obs["res"] == "ok"):
+                dis.append(f"from_file vs model reader on the raw view: impl {obs['res']} vs model {'ok' if 'ok' in rload else rload}")
+            elif "ok" in rload:
+                cmp_state("from_file(raw view)", obs["loaded"], rload["ok"]["field"], dis)
+                if rload["ok"]["w"] != obs["loaded_w"]:
+                    dis.append(f"raw view: element width read back impl {obs['loaded_w']} vs model {rload['ok']['w']}")
         # the hypotheses of the round-trip theorems, evaluated on the state of the real field
         if not inv["ok"]:
             dis.append(f"theorem hypothesis Inv does not hold for the state of a field built by the real constructors "
                        f"(region {inv['region']}, mesh {inv['mesh']})")
-        if len(rs) > 4 and not rs[4]["ok"]:
+        if "ok" in rs[4] and not rs[4]["ok"]:
             dis.append("theorem hypothesis Inv does not hold for the state of the field returned by from_file")
         if inv["ok"] and inv["unit_ok"] and inv["vdims_ok"] and inv["exact"] and "loaded" in obs and obs["loaded"] != obs["state"]:
             dis.append("hypotheses of h5_roundtrip (exact) hold but the field read back differs from the field written")
@@ -1242,6 +1725,10 @@ def compare(case, obs, rs):
     r = rs[0]
     if ("ok" in r) != (obs["res"] == "ok"):
         dis.append(f"tampered file ({case['tamper']}): impl {obs['res']} ({obs.get('err')}) vs model {'ok' if 'ok' in r else r}")
+    elif "ok" in r and "raw" in obs:
+        cmp_state(f"tampered({case['tamper']})", obs["loaded"], r["ok"]["field"], dis)
+        if r["ok"]["w"] != obs["loaded_w"]:
+            dis.append(f"tampered({case['tamper']}): element width read back impl {obs['loaded_w']} vs model {r['ok']['w']}")
     elif "ok" in r:
         cmp_state(f"tampered({case['tamper']})", obs["loaded"], r["ok"], dis)
     if len(rs) > 1 and not rs[1]["ok"]:   # reader_returns_inv
